@@ -80,16 +80,25 @@ def proof_and_tie(rep):
         broken = (broken + '\n' if broken else '') + 'T-gen tie (values the theorems are about) no longer checks:\n' + '\n'.join(hard + other)
     return broken, ('\n'.join(soft) or None), True
 
-def budgets(tier, escalate, hooks):
+def budgets(tier, hooks):
+    """(shards, scenarios per shard[, ops]) per mode and the per-shard deadline in seconds"""
     if tier == 'thorough':
-        b = dict(seq=(16, 150, 60), sched=(16, 400), stress=(16, 120))
+        b = dict(seq=(16, 150, 60), sched=(16, 400), stress=(16, 120), deadline=420)
     else:
-        b = dict(seq=(8, 30, 40), sched=(8, 70), stress=(8, 20))
-    if escalate:
-        b = dict(seq=(16, b['seq'][1] * 4, b['seq'][2]), sched=(16, b['sched'][1] * 4), stress=(16, b['stress'][1] * 5))
+        b = dict(seq=(8, 30, 40), sched=(8, 70), stress=(8, 20), deadline=40)
     if not hooks:
         b['stress'] = (16, b['stress'][1] * 4)
     return b
+
+def run_batch(binary, wd, seed, b, hooks, tag=''):
+    """all shards of all modes through ONE pool of 12 workers (more processes than cores only produces time-outs)"""
+    from concurrent.futures import ThreadPoolExecutor
+    with ThreadPoolExecutor(max_workers=12) as ex:
+        futs = mgrrun.run_many(binary, wd, seed, b['seq'][0], 'seq', b['seq'][1], b['seq'][2], b['deadline'], tag, pool=ex)
+        if hooks:
+            futs += mgrrun.run_many(binary, wd, seed + 300, b['sched'][0], 'sched', b['sched'][1], 40, b['deadline'], tag, pool=ex)
+        futs += mgrrun.run_many(binary, wd, seed + 600, b['stress'][0], 'stress', b['stress'][1], 40, b['deadline'], tag, pool=ex)
+        return [f.result() for f in futs]
 
 def run(rep, prop=PROP):
     wd = os.path.join(common.WORK, prop); shutil.rmtree(wd, ignore_errors=True); os.makedirs(wd)
@@ -108,7 +117,7 @@ def run(rep, prop=PROP):
         rep.notes.append('step fingerprint tie lemmas no longer check (model of those functions unvalidated; budget escalated): ' + soft[:600])
     if not hooks:
         rep.notes.append('no schedule points in this build (%s): controlled-scheduler conformance not run' % note)
-    b = budgets(rep.tier, escalate, hooks)
+    b = budgets(rep.tier, hooks)
     problems = []
     nscn = 0
     # corpus first
@@ -119,13 +128,14 @@ def run(rep, prop=PROP):
         r = mgrrun.replay_ops(binary, lines, os.path.join(wd, 'corpus-' + os.path.basename(f)))
         nscn += r['scn']
         for p in r['problems']: problems.append(p + ('corpus:' + os.path.basename(f),))
-    from concurrent.futures import ThreadPoolExecutor
-    with ThreadPoolExecutor(max_workers=3) as ex:
-        futs = [ex.submit(mgrrun.run_many, binary, wd, rep.seed, b['seq'][0], 'seq', b['seq'][1], b['seq'][2])]
-        if hooks:
-            futs.append(ex.submit(mgrrun.run_many, binary, wd, rep.seed + 300, b['sched'][0], 'sched', b['sched'][1]))
-        futs.append(ex.submit(mgrrun.run_many, binary, wd, rep.seed + 600, b['stress'][0], 'stress', b['stress'][1]))
-        results = [r for f in futs for r in f.result()]
+    results = run_batch(binary, wd, rep.seed, b, hooks)
+    if escalate and not problems and not any(r['problems'] for r in results):
+        # the model is unvalidated (changed source / broken obligation / no schedule points): widen the search
+        # (only when the normal budget found nothing - a failing implementation is reported from the first batch)
+        eb = dict(seq=(12, b['seq'][1] * 2, b['seq'][2]), sched=(12, b['sched'][1] * 3), stress=(12, b['stress'][1] * 3),
+                  deadline=b['deadline'] * 2)
+        results += run_batch(binary, wd, rep.seed + 7000, eb, hooks, tag='x')
+        rep.notes.append('escalated batch run (no disagreement in the normal budget)')
     hist = {}; finals = set(); scheds = set(); lines = 0; inc = outc = rets = phases = 0
     per_mode = {}
     for r in results:
@@ -182,16 +192,42 @@ def shrink(binary, seq, kind, wd):
         i -= 1
     return cur
 
+def confirm(binary, wd, problems, rep, limit=6):
+    """A disagreement that slowness alone could explain (a close / probe answer / Pick that had not happened YET when a
+    time-out expired on a loaded machine) is replayed up to twice; it counts only if it shows again.  Everything
+    else (wrong poller, panic, wrong slice, wrong counter, ...) counts as it is."""
+    kept = []; transient = 0
+    for p in problems:
+        seq, idx, kind, detail, timing, src = p
+        if not timing or not seq:
+            kept.append(p); continue
+        if len(kept) >= limit or transient >= limit:
+            continue
+        again = None
+        for k in range(2):
+            r = mgrrun.replay_ops(binary, seq[:idx + 1], os.path.join(wd, 'confirm'))
+            if r['problems']:
+                again = r['problems'][0]; break
+        if again:
+            kept.append((seq, idx, again[2], again[3] + ' [reproduced on replay]', True, src))
+        else:
+            transient += 1
+    if transient:
+        rep.notes.append('%d timing-only disagreement(s) (a close/probe/Pick not finished when a load-scaled time-out expired) did not reproduce on replay and were dropped; loadavg %s'
+                         % (transient, open('/proc/loadavg').read().split()[0]))
+    return kept
+
 def report(rep, binary, wd, problems, proof_broken, soft):
+    problems = confirm(binary, wd, problems, rep)
     genuine = [p for p in problems if p[2] == 'impl-violates-spec']
     others = [p for p in problems if p[2] != 'impl-violates-spec']
     if genuine:
-        seq, idx, kind, detail, src = genuine[0]
+        seq, idx, kind, detail, timing, src = genuine[0]
         small = shrink(binary, seq[:idx + 1], kind, os.path.join(wd, 'shrink'))
         rep.violation('the real poller pool violates the C18 spec oracle on an in-contract scenario (%d such scenarios; the first is the replay; source %s): %s'
                       % (len(genuine), src, detail), small)
     elif others:
-        seq, idx, kind, detail, src = others[0]
+        seq, idx, kind, detail, timing, src = others[0]
         small = shrink(binary, seq[:idx + 1], kind, os.path.join(wd, 'shrink')) if seq else ['# ' + detail]
         rep.violation('correspondence Netpoll.Manager <-> poll_manager.go/poll_loadbalance.go no longer checks (%s, %d scenarios, source %s) and no spec-violating '
                       'scenario was found in %d scenarios: %s' % (kind, len(others), src, rep.cov['evaluations'], detail), small, no_input=True)
